@@ -105,15 +105,18 @@ impl Scenario for C04Handles {
             1 => Mode::AbsOnly,
             _ => Mode::Mixed,
         };
-        let nthreads = r.range(2, 4) as usize;
+        // "contention" profile: many threads hammering the gauge with deltas only, so that one
+        // update can lose its compare-and-swap many times in a row
+        let contention = r.chance(120);
+        let nthreads = if contention { 6 } else { r.range(2, 4) as usize };
         let max_ops = if tier == Tier::Thorough { 10 } else { 7 };
         let mut threads = vec![];
-        let use_set = r.chance(300);
+        let use_set = !contention && r.chance(300);
         for _ in 0..nthreads {
-            let n = r.range(1, max_ops);
+            let n = if contention { 14 } else { r.range(1, max_ops) };
             let mut ops = vec![];
             for _ in 0..n {
-                let op = match r.below(16) {
+                let op = match if contention { 5 + r.below(5) } else { r.below(16) } {
                     0..=3 => match mode {
                         Mode::IncOnly => Op::CInc(*r.pick(&[1u64, 2, 3, 1 << 40, u64::MAX, u64::MAX / 2 + 1, 0])),
                         Mode::AbsOnly => Op::CAbs(r.below(50)),
